@@ -19,7 +19,7 @@ FEXPR = {16: "(2 - 2 ** -10) * 2 ** 15", 32: "(2 - 2 ** -23) * 2 ** 127", 64: "(
 # concrete characters per class of Constants.tla (CharClasses)
 CHARS = {"a": list("AZaz09 ~!#'\"\\"), "c": ["\t", "\x00", "\x7f", "\r", "\n", "\x1b"], "l": ["\u00e9", "\u0080", "\u00ff", "\u00a0"],
          "w": ["\u0451", "\u4e2d", "\u0100", "\uffff"], "m": ["\u0301", "\u0308", "\u200d"], "x": ["\U0001f600", "\U00010000", "\U0010ffff"],
-         "s": ["\ud800", "\udfff"]}
+         "s": ["\ud800", "\udfff"], "k": ["\u212a", "\u037e", "\u1fef", "\uff21", "\u2002"]}
 
 def type_text(t, rng):
     if t["k"] == "bool":
